@@ -238,41 +238,6 @@ def correspond(ctx):
 
 # ------------------------------------------------------------------------------------------------ oracle
 
-def _diff_path(t, a, b):
-    """kinds along the path to the first difference of two canonical neutral values"""
-    k = G.kind(t)
-    if a == b:
-        return []
-    try:
-        if a is None or b is None or a[0] != b[0]:
-            return [k]
-        if k == 'interval':
-            for i in (1, 2):
-                if a[i] != b[i]:
-                    return [k] + _diff_path(t[1], a[i], b[i])
-        if k in ('array', 'set') and len(a[1]) == len(b[1]):
-            for x, y in zip(a[1], b[1]):
-                if x != y:
-                    return [k] + _diff_path(t[1], x, y)
-        if k == 'dict' and len(a[1]) == len(b[1]):
-            for (ka, va), (kb, vb) in zip(a[1], b[1]):
-                if ka != kb:
-                    return [k, 'key'] + _diff_path(t[1], ka, kb)
-                if va != vb:
-                    return [k, 'value'] + _diff_path(t[2], va, vb)
-        if k == 'struct' and len(a[1]) == len(b[1]):
-            for f, x, y in zip(t[1], a[1], b[1]):
-                if x != y:
-                    return [k] + _diff_path(f[1], x, y)
-        if k == 'tuple' and len(a[1]) == len(b[1]):
-            for tt, x, y in zip(t[1], a[1], b[1]):
-                if x != y:
-                    return [k] + _diff_path(tt, x, y)
-    except (TypeError, IndexError):
-        pass
-    return [k]
-
-
 def _has_nan_or_nd(t, v):
     if v is None:
         return False
@@ -341,7 +306,7 @@ def _judge0(c, r, want):
             continue
         got = G.canon_value(t, r[bk])
         if got != want:
-            path = '/'.join(_diff_path(t, want, got))
+            path = '/'.join(G.diff_path(t, want, got))
             out.append((f'{lvl}-roundtrip-differs:{path.split("/")[-1]}', f'value read back differs from the original at {path} ({lvl} level)', want, got))
         elif not r[eqk]:
             out.append((f'{lvl}-roundtrip-not-equal', 'canonical forms agree but the Python objects are not equal (container class changed?)',
